@@ -239,3 +239,17 @@ _R12 = {
 for _pid, _t in _R12.items():
     _lvl, _tech, _txt = CHECKS[_pid]
     CHECKS[_pid] = (_lvl, _tech, _txt + _t)
+
+# ---- additions of round 13 / round N
+_R13 = {
+    "C03": " Round 13: the frameable-response predicate keeps its substring tests (C14.T borrowed).",
+    "C05": " Round 13: an interim 1xx does not use up the header latch of any wrapper (C03.X borrowed).",
+    "C06": " Round 13: the serialiser stops waiting for the published response only on Done of the request's own context.",
+    "C07": " Round 13: no path from a failed read of the backend websocket leads back to the read.",
+    "C11": " Round 13: the close frame goes through the same FIFO as the data (C12.L borrowed).",
+    "C15": " Round 13: no deadline-bound AfterFunc hook or timer callback closes a bridged connection (also C16.A); WaitGroup pairing through a go-runner helper.",
+    "C16": " Round 13: no deadline-bound AfterFunc hook or timer callback closes a bridged connection.",
+}
+for _pid, _t in _R13.items():
+    _lvl, _tech, _txt = CHECKS[_pid]
+    CHECKS[_pid] = (_lvl, _tech, _txt + _t)
